@@ -182,7 +182,8 @@ class SubclassJSONSerializer:
         :param kwargs: Additional keyword arguments to pass to the constructor of the subclass.
         :return: The deserialized object
         """
-        raise NotImplementedError()
+        # a class that does not define how it is built from JSON cannot be deserialized
+        raise ClassNotDeserializableError(cls)
 
     @classmethod
     def from_json(cls, data: Dict[str, Any], **kwargs) -> Self:
